@@ -179,6 +179,7 @@ def fault_enumeration(ctx):
 HOST_SRC = '''
 import threading
 import random
+import traceback
 class Session(dict):
     """a mapping that notices being read (as web sessions do)"""
     accessed = False
@@ -291,7 +292,7 @@ def worker(out, k):
     try:
         out.append(("ok", sorted(str(x) for x in risky(k).keys())))
     except KeyError as e:
-        out.append(("err", e.args))
+        out.append(("err", e.args, [f.name for f in traceback.extract_tb(e.__traceback__)]))
 
 def main():
     out = []
@@ -316,6 +317,7 @@ def main():
         risky(3)
     except KeyError as e:
         out.append(repr(e))
+        out.append(("raised through", [f.name for f in traceback.extract_tb(e.__traceback__)]))     # the host reads its own traceback
     print("done", len(out))
     return sorted(out, key=repr)
 '''
@@ -401,6 +403,16 @@ def differential(ctx, n):
             for hl in rng.sample(hot, rng.choice([1, 2, 3])):
                 trigs.append(build_trigger("tph%d" % hl, base, hl, {"fire_count": rng.choice(["-1", "1"]), "fire_period": "0"}, [], []))
                 tdesc.append(dict(line=hl, args="plain snapshot", watches=[], metrics=0))
+        if rng.random() < 0.5:
+            # deferred captures (the stage in the action's configuration, as the agent's own tests set it) on the functions an exception
+            # passes through and on the generator: the value / exception is collected when the invocation ends
+            from deep.api.tracepoint.trigger import LocationAction, Trigger, FunctionLocation, Location
+            for fn in rng.sample(["risky", "fib", "gen", "worker", "login"], rng.choice([1, 2, 3])):
+                conf = {"fire_count": rng.choice(["-1", "2"]), "fire_period": "0", "stage": "method_capture", "watches": [],
+                        "frame_type": rng.choice(["single_frame", "no_frame"])}
+                trigs.append(Trigger(FunctionLocation(base, fn, Location.Position.CAPTURE),
+                                     [LocationAction("cap-" + fn, None, conf, LocationAction.ActionType.Snapshot)]))
+                tdesc.append(dict(method=fn, args="method capture", watches=[], metrics=0))
         world.install(trigs)
         ref, ref_out = run_host(None)
         raised_in_handler = []
